@@ -165,7 +165,7 @@ def one_case(args):
 def run(res):
     exe = build.fastpasta("rel")
     wd = scratch("c14")
-    n = 260 if res.tier == "quick" else 4000
+    n = 260 if res.tier == "quick" else 16000
     big = 0
     for o in pmap(one_case, [(exe, wd, res.seed, c, res.tier) for c in range(n)]):
         res.evaluations += 1
